@@ -1152,3 +1152,72 @@ def chk_closure(ctx, m, cfg):
 
 
 INDEXOPS["closure"] = (chk_closure, ["C01", "C04", "C10"])
+
+
+# ====================================================================== enumerators (C03): getRes0Cells, getPentagons, setH3Index
+def _doc_cell(res, bc, digit=0):
+    """the documented index of the cell (mode 1, res, base cell, digits 1..res = digit, the rest 7)"""
+    h = (1 << MODE_OFF) | (res << RES_OFF) | (bc << BC_OFF)
+    for d in range(1, 16):
+        h |= (digit if d <= res else 7) << (3 * (15 - d))
+    return h
+
+
+def chk_enumerators(ctx, m, cfg):
+    pent, nbc = _pentagons(m)
+    pents = [b for b in range(nbc) if pent[b]]
+    # getRes0Cells
+    f = m.fn("getRes0Cells")
+    ev = lanes.Evaluator(m)
+    paths = ev.run("getRes0Cells", [lanes.argptr(0)])
+    bad = None
+    if len(paths) != 1 or paths[0].ret != 0:
+        raise Shape("getRes0Cells does not have one successful path")
+    mem = {k[1]: v[0] for k, v in paths[0].mem.items() if k[0] == ("arg", 0)}
+    want = {8 * b: _doc_cell(0, b) for b in range(nbc)}
+    if mem != want:
+        k = sorted(set(mem) ^ set(want) or [o for o in want if mem.get(o) != want[o]])[0]
+        ctx.violation(RULE, "getRes0Cells:cells", "getRes0Cells writes %s at out[%d]; the documented resolution-0 cell of base cell %d is 0x%x (and exactly %d slots are written)"
+                      % ("0x%x" % mem[k] if k in mem else "nothing", k // 8, k // 8, want.get(k, 0), nbc), f.where(), {"function": "getRes0Cells", "config": cfg})
+    else:
+        ctx.ok(RULE, {"function": "getRes0Cells", "cells": nbc, "config": cfg}, "out[b] = documented res-0 index of base cell b for b = 0..%d, nothing else written" % (nbc - 1))
+    # getPentagons
+    f = m.fn("getPentagons")
+    rk, ok_ = f.arg_index("res"), f.arg_index("out")
+    nbad = 0
+    for res in range(16):
+        ev = lanes.Evaluator(m)
+        args = [None, None]
+        args[rk], args[ok_] = res, lanes.argptr(ok_)
+        paths = ev.run("getPentagons", args)
+        if len(paths) != 1 or paths[0].ret != 0:
+            raise Shape("getPentagons(res=%d) does not have one successful path" % res)
+        mem = {k[1]: v[0] for k, v in paths[0].mem.items() if k[0] == ("arg", ok_)}
+        want = {8 * i: _doc_cell(res, b) for i, b in enumerate(pents)}
+        if mem != want:
+            nbad += 1
+            k = sorted(set(mem) ^ set(want) or [o for o in want if mem.get(o) != want[o]])[0]
+            ctx.violation(RULE, "getPentagons:cells", "getPentagons(res=%d) writes %s at out[%d]; documented: the %d pentagon cells (base cells %s, all digits 0) in base-cell order, e.g. 0x%x there"
+                          % (res, "0x%x" % mem[k] if k in mem else "nothing", k // 8, len(pents), pents, want.get(k, 0)), f.where(), {"function": "getPentagons", "res": res, "config": cfg})
+            break
+    if not nbad:
+        ctx.ok(RULE, {"function": "getPentagons", "cases": 16, "config": cfg}, "for res 0..15 exactly the %d pentagon cells of baseCellData are written, each the documented valid index" % len(pents))
+    # setH3Index over its whole documented domain in thorough runs, bit-pattern base cells otherwise
+    f = m.fn("setH3Index")
+    bcs = range(nbc) if getattr(ctx, "tier", "quick") == "thorough" else sorted({0, 1, 2, 4, 8, 16, 32, 64, 85, 42, 121})
+    n = 0
+    for res in range(16):
+        for bc in bcs:
+            for dg in range(8):
+                ev = lanes.Evaluator(m)
+                paths = ev.run("setH3Index", [lanes.argptr(0), res, bc, dg])
+                n += 1
+                got = paths[0].stored(0) if len(paths) == 1 else None
+                if got != _doc_cell(res, bc, dg):
+                    ctx.violation(RULE, "setH3Index:value", "setH3Index(res=%d, baseCell=%d, digit=%d) stores %s; documented 0x%x" % (res, bc, dg, "0x%x" % got if got is not None else None, _doc_cell(res, bc, dg)),
+                                  f.where(), {"function": "setH3Index", "config": cfg})
+                    return
+    ctx.ok(RULE, {"function": "setH3Index", "cases": n, "config": cfg}, "stores mode 1, the resolution, the base cell, digits 1..res = the digit and 7 beyond, for %d argument triples" % n)
+
+
+INDEXOPS["enumerators"] = (chk_enumerators, ["C03"])
